@@ -124,7 +124,7 @@ def judge(ctx, fam, sc, out, mout, binary, test, nviol):
             ctx.violation("property", smsg, signature=c12gen.signature(fam, small, smsg),
                           replay={"ops": small, "impl": sout, "original": sc})
         return
-    if mout:
+    if mout and not (fam == "w" and "conc=1" in sc[0]):
         a = [canon(op, x) for op, x in zip(sc, out)]
         b = [canon(op, x) for op, x in zip(sc, mout + ["<missing>"] * (len(sc) - len(mout)))]
         for i, op, x, y in diff_lines(sc, a, b):
